@@ -76,6 +76,10 @@ KERNELS = [
       [(r"std::isfinite\(step_size\)", "fin"), (r"std::clamp\(step_size, stpmin\(\), 1\.0\)", "clamped"),
        (r"scalar_t\((\d+)\)", r"\1")],
       [("fin", "bool"), ("clamped", "Z")], "c07", ["C07"]),
+    # the guard right after the initial `*0.3` loop (commit 0701278): fail when no valid initial step was found
+    K("src_ls_stale_guard", _LK,
+      r"initial step length is too large!\\n\"\);\s*\}\s*if \((.*?)\)\s*\{\s*return \{false, step_size\};",
+      [(r"state\.valid\(\)", "valid")], [("valid", "bool")], "c07", ["C07"]),
     K("src_ls_stpmin", _LK,
       r"scalar_t\s+lsearchk_t::stpmin\(\)\s*\{\s*return\s+(.*?);",
       [(r"scalar_t\((\d+)\)", r"\1"), (r"std::numeric_limits<scalar_t>::epsilon\(\)", "eps")],
